@@ -100,6 +100,11 @@ func (core *JApiCore) compileUserTypeWithAllDependencies(name string) error {
 		return nil
 	}
 	core.processedUserTypes[name] = struct{}{}
+	if core.userTypesInProgress == nil {
+		core.userTypesInProgress = make(map[string]struct{}, 30)
+	}
+	core.userTypesInProgress[name] = struct{}{}
+	defer delete(core.userTypesInProgress, name)
 
 	currUT := core.userTypes.GetValue(name)
 	if currUT == nil {
@@ -140,13 +145,27 @@ func (core *JApiCore) compileUserTypeWithAllDependencies(name string) error {
 
 	// Check user type is correct.
 	// We should do it here 'cause it will simplify further processing.
-	if err := currUT.Check(); err != nil {
+	if err := currUT.Check(); err != nil && !core.isErrorOfUserTypeInProgress(err, name) {
 		return core.userTypeToJAPIError(err, name)
 	}
 
 	core.userTypes.Set(name, currUT)
 
 	return nil
+}
+
+// isErrorOfUserTypeInProgress reports whether the error was found in another
+// user type whose own compilation isn't finished yet. Such a type (it is part of
+// a recursion) is checked itself - its own schema first - as soon as it is done,
+// so the error is reported there. Reporting it here would depend on the order in
+// which the schema library walks through the types added to this one.
+func (core *JApiCore) isErrorOfUserTypeInProgress(err error, name string) bool {
+	var e kit.Error
+	if !errors.As(err, &e) || e.IncorrectUserType() == "" || e.IncorrectUserType() == name {
+		return false
+	}
+	_, ok := core.userTypesInProgress[e.IncorrectUserType()]
+	return ok
 }
 
 func (core *JApiCore) checkUserTypeDuringBuild(name string, ut jschemaLib.Schema) error {
